@@ -36,7 +36,7 @@ def judge(names, s, a):
         if dyn.is_exc(res):
             # an exception on a move/turn action (or inside teleport) leaves the pose undefined: kinematics broken.
             # exceptions raised by ACTUATE / PICK_N_DROP handling are totality failures decided by C01, not here.
-            if sig['action_kind'] != 'other' or names == ('teleport',):
+            if dyn.blamed(names, ('move_agent', 'turn_agent', 'teleport'), s, a):
                 return len(outs), True, f'{"+".join(names)} on {a} raised {res[1]}: {res[2]} (script {choices})', sig
             return len(outs), False, None, sig
         p = pose(res)
@@ -105,7 +105,18 @@ def make_hooks(env, name):
             return f'agent on a movement-blocking cell {rows[y][x][0]} at {(y, x)}'
         return None
 
-    return on_state, None
+    data = configs.load(dict(configs.all_configs())[name])
+    names = tuple(t['name'] for t in data['transition_functions'])
+
+    def on_edge(k, st, a, choices, k2, st2, reward, done, g):
+        # every explored edge obeys the reference kinematics (states in the search keep their object lineage, so
+        # anything cached on a grid/agent object along a history is exercised here)
+        want = ref_poses(names, k, a.name)
+        if pose(k2) not in want:
+            return f'{a.name}: pose {pose(k)} -> {pose(k2)}, reference kinematics allows {sorted(want)}'
+        return None
+
+    return on_state, on_edge
 
 
 def run(rep, tier, seed):
@@ -116,7 +127,7 @@ def run(rep, tier, seed):
         names, init_limit, max_states = configs.SMALL + ['crossing.7x7', 'four_rooms.7x7', 'teleport.7x7'], 400, 20000
     else:
         names, init_limit, max_states = [n for n, _ in configs.all_configs()], 3000, 150000
-    rs, rt = dyn.run_reach(rep, names, init_limit, max_states, make_hooks, replay, 'agent_on_free_cell')
+    rs, rt = dyn.run_reach(rep, names, init_limit, max_states, make_hooks, replay, 'kinematics_on_reachable_edges', lineages=4)
     rep.assume('dynamics compositions limited to the 7 built-in transition functions alone, the 4 shipped chains and '
                'the full 7-chain in the shipped order')
     return rep.finish(
